@@ -43,3 +43,19 @@ Print Assumptions C09_split_is_flagged.
 Theorem C09_dup_fields : forall t bs, split_raw t = Blocks bs -> Forall dup_ok bs.
 Proof. exact split_raw_dup_ok. Qed.
 Print Assumptions C09_dup_fields.
+
+(* ---- on documents of the dialect grammar (entry keys, string names AND field names may repeat): the number of
+   returned blocks equals the number of source blocks and the i-th block is the flagged i-th source block *)
+From BP Require Import Model.Grammar Proofs.GrammarCorollaries.
+Theorem C09_doc_classify : forall d, wf_doc d -> split (render d) = Blocks (flag_all [] (expected_dup d)).
+Proof. exact C09_doc_classify_dup. Qed.
+Print Assumptions C09_doc_classify.
+
+Theorem C09_doc_count : forall d, wf_doc d -> forall bs, split (render d) = Blocks bs -> List.length bs = List.length (d_items d).
+Proof. exact C09_doc_count_dup. Qed.
+Print Assumptions C09_doc_count.
+
+(* the ground truth with duplicate field names: exactly the duplicate-field wrapping the property describes *)
+Theorem C09_doc_dup_fields : forall d, wf_doc d -> split_raw (render d) = Blocks (expected_dup d) /\ Forall dup_ok (expected_dup d).
+Proof. intros d H. split; [exact (split_render_dup d H) | exact (expected_dup_ok d H)]. Qed.
+Print Assumptions C09_doc_dup_fields.
